@@ -19,6 +19,9 @@ from mc import core
 from mc.core import Rec, HarnessError, jdump
 
 KF_PATH = os.path.join(core.VERIF_DIR, 'known_findings.json')
+# evidence/ and replays/ go to /verif unless redirected (used only by tools/seeded.py, which runs
+# the checks against scratch copies carrying a seeded change and must not touch the real evidence)
+OUT_DIR = os.environ.get('VERIF_OUT_DIR') or core.VERIF_DIR
 MAX_REPLAYS = 8
 
 
@@ -45,7 +48,7 @@ def matches(entry, viol):
 
 
 def write_replay(pid, viol):
-    d = os.path.join(core.VERIF_DIR, 'replays', pid)
+    d = os.path.join(OUT_DIR, 'replays', pid)
     os.makedirs(d, exist_ok=True)
     body = {'property': pid, 'case': viol['case'], 'msg': viol['msg'],
             'tags': viol['tags'], 'detail': viol['detail'], 'repro': viol.get('repro'),
@@ -178,8 +181,8 @@ def main(argv=None):
         ev = {'property_id': pid, 'tier': a.tier, 'seed': seed, 'level': 'model_checking',
               'coverage': cov, 'assumptions': meta.get('assumptions', []),
               'wall_s': round(wall, 3), 'violations': n_unknown}
-        os.makedirs(os.path.join(core.VERIF_DIR, 'evidence'), exist_ok=True)
-        with open(os.path.join(core.VERIF_DIR, 'evidence', pid + '.json'), 'w') as fh:
+        os.makedirs(os.path.join(OUT_DIR, 'evidence'), exist_ok=True)
+        with open(os.path.join(OUT_DIR, 'evidence', pid + '.json'), 'w') as fh:
             json.dump(ev, fh, indent=1, sort_keys=True)
     print('%s tier=%s seed=%d states=%d transitions=%d traces=%d distinct_outcomes=%d '
           'known=%d violations=%d wall=%.1fs' % (
